@@ -23,6 +23,7 @@ import (
 	"verif/harness/core"
 	"verif/harness/hooks"
 	"verif/harness/memnet"
+	"verif/harness/props/c02"
 	"verif/harness/script"
 )
 
@@ -650,6 +651,81 @@ func undecodableCase(c *core.Ctx, r *core.Rand, i int) {
 	}
 }
 
+// hostileFrames feeds the server the binary hostile corpus of C02 (length/type ladders over every item
+// of a valid request, random mutations), one input per connection. The worker process is the crash
+// monitor; a correctly framed input must be answered by exactly one response; the server must keep
+// serving afterwards.
+func hostileFrames(c *core.Ctx, r *core.Rand, i int) {
+	w := newWorld()
+	defer func() { w.srv.Shutdown(); <-w.done }()
+	fam := "bin-ladder"
+	if i%3 == 2 {
+		fam = "bin-random"
+	}
+	n := 0
+	c02.Generators[fam](r, i, func(enc string, t *c02.Target, data []byte, class string) {
+		if enc != "ttlv" || t.Name != "RequestMessage" || len(data) < 8 || n >= 1500 {
+			return
+		}
+		n++
+		declared := int(binary.BigEndian.Uint32(data[4:8]))
+		framed := len(data) == 8+((declared+7)&^7)
+		conn, err := w.l.Dial()
+		if err != nil {
+			return
+		}
+		c.SetCurrent(map[string]any{"input": fmt.Sprintf("%x", data)})
+		conn.Write(data)
+		var nframes atomic.Int64
+		rdone := make(chan struct{})
+		go func() {
+			defer close(rdone)
+			for {
+				if _, err := script.ReadFrame(conn); err != nil {
+					return
+				}
+				nframes.Add(1)
+			}
+		}()
+		c.Count("hostile_inputs", 1)
+		if framed {
+			c.Count("hostile_inputs_framed", 1)
+			// the server answers (an undecodable request: and ends the connection; a decodable one: and waits)
+			for k := 0; k < 40000 && nframes.Load() == 0; k++ {
+				select {
+				case <-rdone:
+					k = 40000
+				default:
+					time.Sleep(100 * time.Microsecond)
+				}
+			}
+		}
+		conn.Close()
+		<-rdone
+		frames := nframes.Load()
+		if framed && frames != 1 && serverQuiescent() {
+			c.Violation("C08:framed-hostile-request-answers", fmt.Sprintf("a correctly framed hostile request (%s) was answered with %d responses", class, frames), map[string]any{"input": fmt.Sprintf("%x", data)})
+		}
+		c.Distinct(core.HashBytes(data))
+	}, func(uint64) {})
+	// still serving?
+	c2, err := w.l.Dial()
+	if err != nil {
+		c.Violation("C08:stops-serving-after-hostile-input", "no connection possible after hostile inputs", nil)
+		return
+	}
+	defer c2.Close()
+	st := ttlv.NewStream(c2, 0)
+	var m kmip.RequestMessage
+	id := fmt.Sprintf("hf%d-after-ok", i)
+	ttlv.UnmarshalTTLV(request(id), &m)
+	var resp kmip.ResponseMessage
+	if err := st.Roundtrip(&m, &resp); err != nil || classify(&resp) != id {
+		c.Violation("C08:stops-serving-after-hostile-input", fmt.Sprintf("the server does not answer a well-formed request after hostile inputs: %v", err), nil)
+	}
+	c.Count("hostile_rounds", 1)
+}
+
 var _ = bytes.Equal
 
 func Spec() *core.Spec {
@@ -661,10 +737,10 @@ func Spec() *core.Spec {
 		Rule: "a real kmipserver.Server on an in-memory listener with handlers scripted per request id {ok, typed error, plain error, panic with string/error/int/runtime error/struct/Stringer, slow (gated), big response}; " +
 			"1-16 (thorough: up to 256) concurrent scripted raw clients per history drawing up to 12 actions from {send whole, send in k pieces, pipeline n, framed-undecodable (4 kinds), unframed garbage, truncated+close, close while the handler runs, stop reading then close while a 200 KiB response is written, close now, slow handler released later, half-close and drain}; " +
 			"every request and response carries a unique id (Unique Batch Item ID) so each connection's received sequence is checked against its sent sequence (exactly once, in order, never more; complete when the client drained); " +
-			"a canary connection is pinged throughout; goroutine census at quiescence; Shutdown at the end; directed schedules through the verif hooks. The worker process is the crash monitor. distinct = distinct per-connection action sequences",
+			"the binary hostile corpus of C02 (length/type ladders over every item of valid requests, random mutations) fed one input per connection; a canary connection is pinged throughout; goroutine census at quiescence; Shutdown at the end; directed schedules through the verif hooks. The worker process is the crash monitor. distinct = distinct per-connection action sequences",
 		Assumptions: []string{"a connection closed abruptly by the client may end short, never long or out of order", "goroutines gone = none with a library frame (other than the accept loop) within 10 s of the last connection ending"},
 		Required: []string{"histories", "connections", "responses_received", "graceful_connections_fully_answered", "canary_pings", "census_checks", "undecodable_requests.kind0", "undecodable_requests.kind1",
-			"directed.client-gone-while-send-holds-tx"},
+			"directed.client-gone-while-send-holds-tx", "hostile_inputs_framed", "hostile_rounds"},
 		Shards: func(string) int { return 8 },
 		Families: []core.Family{
 			{Name: "histories", N: func(tier string) int {
@@ -673,6 +749,12 @@ func Spec() *core.Spec {
 				}
 				return 200
 			}, Run: history, Timeout: 60 * time.Second},
+			{Name: "hostile-frames", N: func(tier string) int {
+				if tier == core.Thorough {
+					return 300
+				}
+				return 12
+			}, Run: hostileFrames, Timeout: 90 * time.Second},
 			{Name: "undecodable", Exhaustive: true, N: func(string) int { return 12 }, Run: undecodableCase, Timeout: 30 * time.Second},
 			{Name: "directed", N: func(tier string) int {
 				if tier == core.Thorough {
